@@ -40,6 +40,16 @@ Theorem C20_forked_threads_see_publication :
 Proof. exact forked_after_published. Qed.
 Print Assumptions C20_forked_threads_see_publication.
 
+(* ... and so do threads that obtain the object through a lock the creator released after
+   the publication point (a registry guarded by a mutex) *)
+Theorem C20_lock_handover_publishes :
+  forall tr t0 p a0 r l m1 u a m2,
+  at_ tr p (t0, a0) -> (p <= r)%nat -> at_ tr r (t0, Rel l m1) ->
+  (r < a)%nat -> at_ tr a (u, Acq l m2) -> (m1 = Excl \/ m2 = Excl) ->
+  forall k b, (a < k)%nat -> at_ tr k (u, b) -> hb tr p k.
+Proof. exact lock_handover_published. Qed.
+Print Assumptions C20_lock_handover_publishes.
+
 (* no slack: one access without the guard is enough for a race (thread 1 writes x under l,
    thread 0 reads x without it) *)
 Theorem C20_unguarded_access_races :
